@@ -44,6 +44,15 @@ type branch struct {
 	n      int           // own blocks
 	dt     time.Duration // timestamp spacing of own blocks
 	onMain bool          // a prefix of main of length from
+	like   int           // >0: the same chain as node like-1 (several nodes settled on one tip)
+}
+
+// a lateOp happens after the network has settled: node mines n more blocks on its tip (v1: blocks
+// without v2 data, legal below the require height) and adds them to its own manager
+type lateOp struct {
+	node int
+	n    int
+	v1   bool
 }
 
 type spec struct {
@@ -60,6 +69,14 @@ type spec struct {
 	bootAt    int // checkpoint height (on main)
 	sendCap   uint64
 	tags      []string
+	// staging: the edges NOT in lateEdges are connected first and the network settles (every peer
+	// marked synced on both sides); then lateEdges are connected and the late operations happen
+	lateEdges []int // indices into the edge list
+	late      []lateOp
+	// announce: "" = every node re-announces its tip every 150 ms; "once" = every node announces its
+	// tip exactly once after the last connection / late operation (the relays the code itself
+	// sends after a sync are all that carries a chain further than one hop)
+	announce string
 }
 
 func edgesOf(topo string, n int) [][2]int {
@@ -143,7 +160,7 @@ func coreSpecs() []spec {
 		if s.mainDt == 0 {
 			s.mainDt = time.Second
 		}
-		if s.bootstrap == 0 && s.bootAt == 0 {
+		if s.bootAt == 0 {
 			s.bootstrap = -1
 		}
 		out = append(out, s)
@@ -172,7 +189,56 @@ func coreSpecs() []spec {
 	// a node bootstrapped from a checkpoint (instant sync)
 	add(spec{name: "core-bootstrap-behind", mainLen: 30, branches: []branch{m(14), m(30), f(20, 4, 2*time.Second)}, topo: "line", bootstrap: 0, bootAt: 14})
 	add(spec{name: "core-bootstrap-ahead", mainLen: 30, branches: []branch{m(30), m(19), f(22, 3, 2*time.Second)}, topo: "star", bootstrap: 0, bootAt: 18})
+	// two nodes only: the full node's history sample (tip, 9 below, then 11, 15, 23, … below) does
+	// not contain the checkpoint block, so it finds no common history with the checkpoint node
+	add(spec{name: "core-bootstrap-two-nodes-off-sample", mainLen: 30, branches: []branch{m(14), m(30)}, topo: "line", bootstrap: 0, bootAt: 14})
+	add(spec{name: "core-bootstrap-two-nodes-off-sample-dialed", mainLen: 40, branches: []branch{m(40), m(22)}, topo: "line", bootstrap: 1, bootAt: 18, flip: []bool{true}})
 	add(spec{name: "core-bootstrap-on-fork", mainLen: 30, branches: []branch{f(24, 3, 2*time.Second), m(30), m(21)}, topo: "ring", bootstrap: 0, bootAt: 20})
+	// late joiner on a line: the far nodes are connected and settled (everybody marked synced)
+	// before the heavy node joins at one end; the heavy chain reaches its neighbour through the
+	// sync loop and the others only through the relay that follows a sync. Tips announced once.
+	like := func(j int) branch { return branch{like: j + 1} }
+	for _, lj := range []struct {
+		name           string
+		allow, require uint64
+		mainLen        int
+		br             []branch
+		late           []int
+	}{
+		{"v2-fork", 6, 10, 26, []branch{m(26), f(20, 2, 2*time.Second), like(1)}, []int{0}},
+		{"v1-fork", 6, 10, 5, []branch{m(5), f(1, 2, 2*time.Second), like(1)}, []int{0}},
+		{"across-extension", 6, 10, 14, []branch{m(14), m(7), like(1)}, []int{0}},
+		{"four-nodes", 6, 10, 24, []branch{m(24), f(15, 3, 2*time.Second), like(1), like(1)}, []int{0}},
+		{"heavy-at-far-end", 3, 5, 18, []branch{m(9), like(0), m(18)}, []int{1}},
+	} {
+		add(spec{name: "core-late-joiner-" + lj.name, allow: lj.allow, require: lj.require, mainLen: lj.mainLen, branches: lj.br, topo: "line",
+			lateEdges: lj.late, announce: "once"})
+		add(spec{name: "core-late-joiner-" + lj.name + "-reannounce", allow: lj.allow, require: lj.require, mainLen: lj.mainLen, branches: lj.br, topo: "line",
+			lateEdges: lj.late})
+	}
+	// one block behind after settling: the nodes share a tip, consider each other synced, then one
+	// of them finds the next block. Below the allow height and in the allow..require window the
+	// block may be a v1 block, which only a header can announce.
+	for _, ob := range []struct {
+		name           string
+		allow, require uint64
+		h              int
+		v1             bool
+	}{
+		{"below-allow", 6, 10, 3, true},
+		{"v1-at-allow", 6, 10, 5, true},
+		{"v1-in-window", 6, 10, 7, true},
+		{"v1-last-before-require", 6, 10, 8, true},
+		{"v2-in-window", 6, 10, 7, false},
+		{"v2-at-require", 6, 10, 9, false},
+		{"v2-above-require", 6, 10, 14, false},
+		{"v1-in-window-n8-20", 8, 20, 13, true},
+	} {
+		add(spec{name: "core-one-behind-after-settle-" + ob.name, allow: ob.allow, require: ob.require, mainLen: ob.h, branches: []branch{m(ob.h), m(ob.h)}, topo: "line",
+			late: []lateOp{{node: 0, n: 1, v1: ob.v1}}})
+		add(spec{name: "core-one-behind-after-settle-" + ob.name + "-3nodes", allow: ob.allow, require: ob.require, mainLen: ob.h, branches: []branch{m(ob.h), m(ob.h), m(ob.h)}, topo: "line",
+			late: []lateOp{{node: 2, n: 1, v1: ob.v1}}, announce: "once"})
+	}
 	// small request sizes (every node started with the same WithMaxSendBlocks)
 	add(spec{name: "core-sendcap-3", mainLen: 16, branches: []branch{m(16), m(2), f(9, 4, 2*time.Second)}, topo: "line", sendCap: 3})
 	add(spec{name: "core-sendcap-1", mainLen: 14, branches: []branch{f(3, 5, 2*time.Second), m(14)}, topo: "line", sendCap: 1})
@@ -214,6 +280,46 @@ func randomSpec(rng *vh.RNG, i int) spec {
 	s.order = rng.Perm(len(es))
 	for range es {
 		s.flip = append(s.flip, rng.Bool())
+	}
+	switch rng.Intn(8) {
+	case 0:
+		// staged: some edges are connected only after the rest has settled
+		for k := range es {
+			if rng.Chance(1, 3) {
+				s.lateEdges = append(s.lateEdges, k)
+			}
+		}
+	case 1:
+		// late joiner on a line, tips announced once: node 0 is heavy, the others share one tip
+		s.topo = "line"
+		n = 3 + rng.Intn(2)
+		c := 1 + rng.Intn(s.mainLen-1)
+		x := rng.Intn(3)
+		others := branch{from: c, n: x, dt: 2 * time.Second}
+		if x == 0 {
+			others = branch{from: c, onMain: true}
+		}
+		s.branches = []branch{{from: s.mainLen, onMain: true}, others}
+		if c+x+2 > s.mainLen {
+			s.branches[0] = branch{from: c, n: x + 2 + rng.Intn(5), dt: time.Second}
+		}
+		for k := 2; k < n; k++ {
+			s.branches = append(s.branches, branch{like: 2})
+		}
+		s.order, s.flip = nil, nil
+		s.lateEdges = []int{0}
+		s.announce = "once"
+	case 2:
+		// everybody on one tip, settle, then one node finds 1-2 blocks (v1 where that is legal)
+		h := rng.Intn(s.mainLen + 1)
+		for k := range s.branches {
+			s.branches[k] = branch{from: h, onMain: true}
+		}
+		v1 := uint64(h+1) < s.require && rng.Chance(2, 3)
+		s.late = []lateOp{{node: rng.Intn(n), n: 1 + rng.Intn(2), v1: v1}}
+		if rng.Bool() {
+			s.announce = "once"
+		}
 	}
 	return s
 }
@@ -280,6 +386,10 @@ func runSpec(s spec, ip string) *vh.Case {
 	n := len(s.branches)
 	chains := make([][]types.Block, n)
 	for i, b := range s.branches {
+		if b.like > 0 {
+			chains[i] = chains[b.like-1]
+			continue
+		}
 		if b.onMain {
 			chains[i] = main.Blocks[:b.from]
 			continue
@@ -289,11 +399,24 @@ func runSpec(s spec, ip string) *vh.Case {
 		reg.AddChain(f)
 		chains[i] = f.Blocks
 	}
-	// initial tips: model ids, works, difficulties
+	// late operations are prepared up front (they are only used in specs in which the node that
+	// mines is still on its initial tip when the network has settled)
+	eff := append([][]types.Block(nil), chains...)
+	lateBlocks := map[int][]types.Block{}
+	for k, op := range s.late {
+		f := nt.ChainFrom(eff[op.node])
+		for j := 0; j < op.n; j++ {
+			b := f.Mine(netx.MineOpts{V1: op.v1, Dt: 2 * time.Second, Addr: types.Address{0x40, byte(k), byte(j)}})
+			lateBlocks[op.node] = append(lateBlocks[op.node], b)
+		}
+		reg.AddChain(f)
+		eff[op.node] = f.Blocks
+	}
+	// the tips the network has to agree on: model ids, works, difficulties
 	tipID := make([]int, n)
-	for i := range chains {
-		if len(chains[i]) > 0 {
-			tipID[i] = reg.IDOfHeader(chains[i][len(chains[i])-1].ID())
+	for i := range eff {
+		if len(eff[i]) > 0 {
+			tipID[i] = reg.IDOfHeader(eff[i][len(eff[i])-1].ID())
 		}
 	}
 	distinct := map[int]bool{}
@@ -343,6 +466,19 @@ func runSpec(s spec, ip string) *vh.Case {
 	}
 	if s.bootstrap >= 0 {
 		c.Tags = append(c.Tags, "bootstrap:checkpoint")
+	}
+	if len(s.lateEdges) > 0 {
+		c.Tags = append(c.Tags, "staged:late-joiner")
+	}
+	for _, op := range s.late {
+		kind := "v2"
+		if op.v1 {
+			kind = "v1"
+		}
+		c.Tags = append(c.Tags, fmt.Sprintf("late-block:%s", kind))
+	}
+	if s.announce == "once" {
+		c.Tags = append(c.Tags, "announce:once")
 	}
 
 	// start the nodes
@@ -394,25 +530,92 @@ func runSpec(s spec, ip string) *vh.Case {
 			order[i] = i
 		}
 	}
-	for _, k := range order {
-		e := es[k]
-		a, b := e[0], e[1]
-		if k < len(s.flip) && s.flip[k] {
-			a, b = b, a
+	isLate := map[int]bool{}
+	for _, k := range s.lateEdges {
+		isLate[k] = true
+	}
+	degree := make([]int, n)
+	connect := func(late bool) {
+		for _, k := range order {
+			if isLate[k] != late {
+				continue
+			}
+			e := es[k]
+			a, b := e[0], e[1]
+			if k < len(s.flip) && s.flip[k] {
+				a, b = b, a
+			}
+			ctx, cancel := context.WithTimeout(context.Background(), 5*time.Second)
+			_, err := nodes[a].n.S.Connect(ctx, nodes[b].n.Addr())
+			cancel()
+			if err != nil {
+				c.Oracle("harness-connect", "connect %d->%d: %v", a, b, err)
+			}
+			degree[a]++
+			degree[b]++
+			c.Op(fmt.Sprintf("edge %d %d", e[0], e[1]), "ok")
 		}
-		ctx, cancel := context.WithTimeout(context.Background(), 5*time.Second)
-		_, err := nodes[a].n.S.Connect(ctx, nodes[b].n.Addr())
-		cancel()
-		if err != nil {
-			c.Oracle("harness-connect", "connect %d->%d: %v", a, b, err)
+	}
+	announceOnce := func(nd *netx.Node) {
+		b, ok := nd.CM.Block(nd.CM.Tip().ID)
+		if !ok || nd.CM.Tip().Height == 0 {
+			return
 		}
-		c.Op(fmt.Sprintf("edge %d %d", e[0], e[1]), "ok")
+		nd.S.BroadcastV2Header(b.Header())
+		if b.V2 != nil {
+			nd.S.BroadcastV2BlockOutline(gateway.OutlineBlock(b, nd.CM.PoolTransactions(), nd.CM.V2PoolTransactions()))
+		}
+	}
+	connect(false)
+	if len(s.lateEdges) > 0 || len(s.late) > 0 {
+		// settle: every node sees all its peers, every peer is marked synced on both sides, for 300 ms
+		settled := func() bool {
+			for i, nr := range nodes {
+				ps := nr.n.S.Peers()
+				if len(ps) != degree[i] {
+					return false
+				}
+				for _, p := range ps {
+					if !p.Synced() {
+						return false
+					}
+				}
+			}
+			return true
+		}
+		ok := netx.WaitFor(25*time.Second, func() bool {
+			if !settled() {
+				return false
+			}
+			time.Sleep(300 * time.Millisecond)
+			return settled()
+		})
+		if !ok {
+			c.Oracle("settle-phase-stalled", "the first-stage network (%d edges) did not settle (all peers marked synced) within 25 s", len(es)-len(s.lateEdges))
+		}
+		connect(true)
+		for _, op := range s.late {
+			for _, b := range lateBlocks[op.node] {
+				if err := nodes[op.node].n.CM.AddBlocks([]types.Block{b}); err != nil {
+					c.Oracle("harness-late-block", "node %d rejected its own late block: %v", op.node, err)
+				}
+			}
+		}
 	}
 
-	// every node keeps announcing its tip
+	// tips are announced: periodically by every node, or exactly once
 	stop := make(chan struct{})
 	var awg sync.WaitGroup
+	if s.announce == "once" {
+		time.Sleep(150 * time.Millisecond) // let the last connection's handshake finish on both sides
+		for _, nr := range nodes {
+			announceOnce(nr.n)
+		}
+	}
 	for _, nr := range nodes {
+		if s.announce == "once" {
+			break
+		}
 		awg.Add(1)
 		go func(nd *netx.Node) {
 			defer awg.Done()
